@@ -250,9 +250,13 @@ Section Sem.
         let r := map (fun m => update m y up) ms in
         (SEns a (base_upd b y) (map fst r), concat (map snd r))
     | SPipe b ts f =>
-        let '(ts', yt, tc) := upd_chain up ts y in
-        let '(f', tc2) := update f yt up in
-        (SPipe (base_upd b y) ts' f', tc ++ tc2)
+        match y with
+        | [] => (SPipe (base_upd b y) ts f, [])   (* empty batch: returns right after _update_y_X *)
+        | _ =>
+            let '(ts', yt, tc) := upd_chain up ts y in
+            let '(f', tc2) := update f yt up in
+            (SPipe (base_upd b y) ts' f', tc ++ tc2)
+        end
     | SMux b m =>
         let '(m', tc) := update m y up in
         (SMux (base_upd b y) m', tc)
